@@ -93,3 +93,26 @@ Theorem lstsq_two_points : forall x1 y1 x2 y2, ~ x1 == x2 ->
   slope_lstsq [(x1, y1); (x2, y2)] == slope_mean [(x1, y1); (x2, y2)].
 Proof. exact LstsqSpec.lstsq_two_points. Qed.
 Print Assumptions lstsq_two_points.
+
+(* subgrid.segment_length / segment_average / segment_median and subgrid.ucat_volume regenerated from the source ARE the models
+   (np.average / np.nanmedian of the collected values are the model's exact weighted mean / median; None = fuel used up) *)
+From PF Require Import Net Ucat GenSegWalkEq GenSegUcatEq.
+From PFG Require Import GenSeg.
+Local Open Scope nat_scope.
+Theorem gen_segment_length_topo : forall nxt outs mask distnc nodata sq, topo nxt sq -> complete nxt sq ->
+  gen_segment_length outs nxt distnc mask nodata = Some (segment_length nxt outs mask distnc nodata).
+Proof. exact GenSegWalkEq.gen_segment_length_topo. Qed.
+Print Assumptions gen_segment_length_topo.
+Theorem gen_segment_average_topo : forall nxt outs mask data weights nodata sq, length nxt <= length weights ->
+  topo nxt sq -> complete nxt sq ->
+  gen_segment_average outs nxt data weights mask nodata = Some (segment_average nxt outs mask data weights nodata).
+Proof. exact GenSegWalkEq.gen_segment_average_topo. Qed.
+Print Assumptions gen_segment_average_topo.
+Theorem gen_segment_median_topo : forall nxt outs mask data nodata sq, topo nxt sq -> complete nxt sq ->
+  gen_segment_median outs nxt data mask nodata = Some (segment_median nxt outs mask data nodata).
+Proof. exact GenSegWalkEq.gen_segment_median_topo. Qed.
+Print Assumptions gen_segment_median_topo.
+Theorem gen_ucat_volume_eq : forall outs ds sq hand area depths, length area <= length hand ->
+  gen_ucat_volume outs ds sq hand area depths = ucat_volume ds outs sq hand area depths.
+Proof. exact GenSegUcatEq.gen_ucat_volume_eq. Qed.
+Print Assumptions gen_ucat_volume_eq.
